@@ -143,6 +143,16 @@ def c16_string_patterns(tier="quick", seed=0):
                 items.append(("coerced-pattern", f"{J(s)}.split({js_})", _spec_split(s, txt, None)))
             items.append(("concat", f"{J(s)}.concat({js_}, 'z', {js_})", s + txt + "z" + txt))
         items.append(("concat", f"{J(s)}.concat()", s))
+        # missing arguments are undefined: the search text is "undefined", so is the replacement
+        items.append(("missing-arguments", f"{J(s)}.replace()", _spec_replace(s, "undefined", "undefined", False)))
+        items.append(("missing-arguments", f"{J(s)}.replaceAll()", _spec_replace(s, "undefined", "undefined", True)))
+        items.append(("missing-arguments", f"{J(s)}.replace('a')", _spec_replace(s, "a", "undefined", False)))
+        items.append(("missing-arguments", f"{J(s)}.replaceAll('a')", _spec_replace(s, "a", "undefined", True)))
+        items.append(("missing-arguments", f"{J(s)}.replaceAll(undefined, '-')", _spec_replace(s, "undefined", "-", True)))
+        items.append(("missing-arguments", f"{J(s)}.replace(undefined, '-')", _spec_replace(s, "undefined", "-", False)))
+        items.append(("missing-arguments", f"{J(s)}.search()", 0))
+        items.append(("missing-arguments", f"{J(s)}.match()[0] + '|' + {J(s)}.match().index", "|0"))
+        items.append(("missing-arguments", f"{J(s)}.match(undefined).length", 1))
     chunks = [items[i::16] for i in range(16)]
     with mp.get_context("fork").Pool(16) as pool:
         rs = pool.map(_strpat_chunk, chunks)
